@@ -135,7 +135,34 @@ func iotest1(s string) io.Reader { return oneByte{strings.NewReader(s)} }
 var names = []string{"a", "b", "a b", "a  b", "é", "d/a", "a\nb", "b  a", "A", "a/", "B", "d.a", "\xff", " a"}
 var contents = []string{"", "x", "y", "x\n", "x  a\n", strings.Repeat("0123456789abcdef", 4097) + "z"}
 
+// FirstCalls is the menu of the fresh-process call-order check.
+func FirstCalls() []fw.Call {
+	var out []fw.Call
+	for _, m := range []map[string]string{{"a": "x", "b": "y\n", "c/d": ""}, {"z": strings.Repeat("0123456789abcdef", 5000), "a": "other"}, {}, {"a\nb": "x"}} {
+		m := m
+		out = append(out, fw.Call{Name: fmt.Sprintf("Hash1(%d files)", len(m)), F: func() string {
+			var fs []string
+			for k := range m {
+				fs = append(fs, k)
+			}
+			h, err := dirhash.Hash1(fs, func(n string) (io.ReadCloser, error) { return io.NopCloser(strings.NewReader(m[n])), nil })
+			return fmt.Sprintf("%s err=%v want=%s", h, err, refHash(m))
+		}})
+	}
+	out = append(out, fw.Call{Name: "Hash1(open error)", F: func() string {
+		h, err := dirhash.Hash1([]string{"a", "b"}, func(n string) (io.ReadCloser, error) {
+			if n == "b" {
+				return nil, fmt.Errorf("injected")
+			}
+			return io.NopCloser(strings.NewReader("x")), nil
+		})
+		return fmt.Sprintf("%s err=%v", h, err)
+	}})
+	return out
+}
+
 func Run(r *fw.Run) {
+	defer fw.FirstCallOrders(r, r.ID, FirstCalls(), nil)
 	maxSet := r.Pick(3, 4)
 	nn := r.Pick(14, 14)
 	nc := r.Pick(6, 6)
@@ -245,7 +272,23 @@ func Run(r *fw.Run) {
 		r.Bounds["name_byte_sweep"] = fmt.Sprintf("3 positions x (256 byte values + %d other fills) x 2 set shapes", len(fills)-256)
 		for _, f := range fills {
 			for _, nm := range []string{f + "x", "a" + f + "b", "dir/x" + f} {
-				for _, set := range [][]string{{nm}, {"b", nm, "a/z"}} {
+				// alone, next to two fixed neighbours, and next to its own proper prefixes (the order of two names
+				// of which one is a prefix of the other depends on nothing but the names)
+				sets := [][]string{{nm}, {"b", nm, "a/z"}}
+				if len(f) < 100 {
+					switch {
+					case strings.HasPrefix(nm, "a"+f):
+						sets = append(sets, []string{nm, "a"}, []string{"a", "a" + f, nm})
+					case strings.HasPrefix(nm, "dir/x"):
+						sets = append(sets, []string{"dir/x", nm}, []string{nm, "dir/", "dir/x"})
+					default:
+						sets = append(sets, []string{nm, f}, []string{f + "x", f + "xy", f})
+					}
+				}
+				for _, set := range sets {
+					if len(set) == 3 && (set[0] == set[1] || set[1] == set[2] || set[0] == set[2]) || len(set) == 2 && set[0] == set[1] {
+						continue
+					}
 					ct := make([]string, len(set))
 					for i := range ct {
 						ct[i] = "content " + strconv.Itoa(i) + "\n"
